@@ -111,12 +111,14 @@ WireUnreadable ==
   /\ UNCHANGED <<sc, lastId, lastSeq, open, frames, ans, toAck, sentIds, resend, wantSalt, stored, alive, judgeAcks, updates>>
 
 (* ---- what the server sent ---- *)
+\* the one error that is handled, not returned: PHONE_MIGRATE_<number>; without a number it is an error like any other
+IsMigrate(v) == v.msg = "PHONE_MIGRATE_X" /\ v.param # "<nil>"
 \* a result for frame `req`
 Answered(fr, an, rs, item) ==
   IF Has(fr, item.req)
-    THEN [fr |-> [fr EXCEPT ![item.req].st = IF item.val.msg = "PHONE_MIGRATE_X" THEN "migrate" ELSE "answered"],
+    THEN [fr |-> [fr EXCEPT ![item.req].st = IF IsMigrate(item.val) THEN "migrate" ELSE "answered"],
           an |-> (item.req :> item.val) @@ an,
-          rs |-> IF item.val.msg = "PHONE_MIGRATE_X" THEN rs \cup {fr[item.req].tag} ELSE rs]
+          rs |-> IF IsMigrate(item.val) THEN rs \cup {fr[item.req].tag} ELSE rs]
     ELSE [fr |-> fr, an |-> an, rs |-> rs]
 RECURSIVE AnswerAll(_, _, _, _, _)
 AnswerAll(fr, an, rs, items, k) ==
